@@ -69,8 +69,16 @@ def one(sid):
         notes = open(os.path.join(d, 'notes.txt')).read() if os.path.exists(os.path.join(d, 'notes.txt')) else ''
         mc = re.search(r'Condition:(.*?)(?:\nTest suite|\Z)', notes, re.S)
         meta['needs_to_manifest'] = ' '.join(mc.group(1).split()) if mc else ''
+        if not meta['needs_to_manifest']:
+            # free-form notes: take the paragraph(s) that follow the first line mentioning "manifest"
+            ls = notes.splitlines()
+            idx = [i for i, l in enumerate(ls) if 'manifest' in l.lower()]
+            if idx:
+                meta['needs_to_manifest'] = ' '.join(' '.join(ls[idx[0]:idx[0] + 14]).split())[:900]
         mch = re.search(r'Change[^:]*:(.*?)(?:\nWhy|\Z)', notes, re.S)
         meta['change'] = ' '.join(mch.group(1).split())[:600] if mch else ''
+        if not meta['change']:
+            meta['change'] = ' '.join(notes.split())[:500]
         meta['what_was_run'] = [
             'git clone /repo <scratch>; demo.py on the clean copy (exit %s)' % rc0,
             'git apply patch.diff; pinned pytest command (%s)' % meta['tests_with_patch'],
